@@ -600,7 +600,7 @@ def run(ctx):
         for mode, cfg in CONFIGS.items():
             pair = vnet.ServedPair(rpyc.VoidService(), rpyc.VoidService(), cfg_a={}, cfg_b=cfg)
             try:
-                nseq = ctx.budget(330, 50000 // 3)
+                nseq = ctx.budget(330, 300000 // 3)
                 for i in range(nseq):
                     kind = rng.choice(list(KINDS))
                     names = run_sequence(ctx, rng, pair, mode, kind, i)
@@ -609,9 +609,9 @@ def run(ctx):
                     if ctx.enough():
                         break
                 if mode != "default":
-                    for i in range(ctx.budget(40, 3000)):
+                    for i in range(ctx.budget(40, 12000)):
                         run_file_sequence(ctx, rng, pair, mode, scratch, i)
-                for i in range(ctx.budget(150, 9000)):
+                for i in range(ctx.budget(150, 60000)):
                     run_iterators(ctx, rng, pair, mode)
                     if ctx.enough():
                         break
